@@ -18,13 +18,13 @@ theorem nilF : ChainF s env [] := by
 theorem rootF (i : Info) (h : ChainF s env rest) : ChainF s env (.root i :: rest) := by
   intro prev root cur aloc st st' r hout hr
   simp only [retrieve] at hr
-  simp only [fails]
+  simp only [fails, failsN]
   exact h i root root none st st' r hout hr
 
 theorem curF (i : Info) (h : ChainF s env rest) : ChainF s env (.cur i :: rest) := by
   intro prev root cur aloc st st' r hout hr
   simp only [retrieve] at hr
-  simp only [fails]
+  simp only [fails, failsN]
   exact h i root cur none st st' r hout hr
 
 /-- an immediate error -/
@@ -41,7 +41,7 @@ theorem childF (i : Info) (k : String) (hi : s = true → 0 < i.conn.utf8ByteSiz
   cases cur with
   | obj kvs =>
     simp only [retrieve] at hr
-    simp only [fails]
+    simp only [fails, failsN]
     cases hl : Val.lookup k kvs with
     | none =>
       rw [hl] at hr
@@ -51,7 +51,7 @@ theorem childF (i : Info) (k : String) (hi : s = true → 0 < i.conn.utf8ByteSiz
       exact h i root v _ st st' r hout hr
   | null | bool _ | num _ | jnum _ | str _ | arr _ | opq _ _ =>
     simp only [retrieve] at hr
-    simp only [fails]
+    simp only [fails, failsN]
     exact immF hr hi
 
 theorem wildF (hok : RetrieveOK env rest) (i : Info) (hi : s = true → 0 < i.conn.utf8ByteSize)
@@ -60,26 +60,26 @@ theorem wildF (hok : RetrieveOK env rest) (i : Info) (hi : s = true → 0 < i.co
   cases cur with
   | obj kvs =>
     simp only [retrieve] at hr
-    simp only [fails]
+    simp only [fails, failsN]
     exact loop_nodeF hok h _ (fun kv : String × Val => fails env rest root kv.2) (sortKV kvs) i root
       (fun x _ => ⟨x.2, ext aloc (.key x.1), fun _ => rfl, rfl⟩) i hi st st' r hout hr
   | arr xs =>
     simp only [retrieve] at hr
-    simp only [fails]
+    simp only [fails, failsN]
     have := loop_nodeF hok h _ (fun xi : Val × Nat => fails env rest root xi.1) xs.zipIdx i root
       (fun x _ => ⟨x.1, ext aloc (.idx x.2), fun _ => rfl, rfl⟩) i hi st st' r hout hr
     rw [← grp_map i (fun xi : Val × Nat => xi.1) xs.zipIdx (fun x => fails env rest root x), List.zipIdx_map_fst] at this
     exact this
   | null | bool _ | num _ | jnum _ | str _ | opq _ _ =>
     simp only [retrieve] at hr
-    simp only [fails]
+    simp only [fails, failsN]
     exact immF hr hi
 
 theorem descF (hok : RetrieveOK env rest) (i : Info) (mr lr : Bool) (hi : s = true → 0 < i.conn.utf8ByteSize)
     (h : ChainF s env rest) : ChainF s env (.desc i mr lr :: rest) := by
   intro prev root cur aloc st st' r hout hr
   simp only [retrieve] at hr
-  simp only [fails]
+  simp only [fails, failsN]
   by_cases hc : cur.isContainer = true
   · rw [if_pos hc] at hr
     rw [if_pos hc]
@@ -103,7 +103,7 @@ theorem unionF (hok : RetrieveOK env rest) (i : Info) (subs : List SubI) (hi : s
   cases cur with
   | arr xs =>
     simp only [retrieve] at hr
-    simp only [fails]
+    simp only [fails, failsN]
     refine loop_nodeF hok h _
       (fun ix : Int => match (if ix < 0 then none else xs[ix.toNat]?) with
         | some v => fails env rest root v
@@ -118,14 +118,14 @@ theorem unionF (hok : RetrieveOK env rest) (i : Info) (subs : List SubI) (hi : s
     refine ⟨xs[ix.toNat], ext aloc (.idx ix.toNat), fun st0 => ?_, ?_⟩ <;> simp only [hget]
   | null | bool _ | num _ | jnum _ | str _ | obj _ | opq _ _ =>
     simp only [retrieve] at hr
-    simp only [fails]
+    simp only [fails, failsN]
     exact immF hr hi
 
 theorem ffnF (i : Info) (name : String) (hi : s = true → 0 < i.conn.utf8ByteSize) (h : ChainF s env rest) :
     ChainF s env (.ffn i name :: rest) := by
   intro prev root cur aloc st st' r hout hr
   simp only [retrieve] at hr
-  simp only [fails]
+  simp only [fails, failsN]
   cases hf : env.ffn name with
   | none => rw [hf] at hr; simp at hr
   | some f =>
@@ -171,7 +171,7 @@ def midFails (env : Env) (rest : List N) (root : Val) (kvs : List (String × Val
 theorem fails_multi_obj (i : Info) (ids : List MId) (twin : Option Info) (root : Val) (kvs : List (String × Val)) :
     fails env (.multi i ids twin :: rest) root (.obj kvs) =
       if ids.all (absentKey kvs) then [.member i] else ids.flatMap (midFails env rest root kvs) := by
-  cases twin <;> (simp only [fails]; rfl)
+  cases twin <;> (simp only [fails, failsN]; rfl)
 
 theorem multiF (hok : RetrieveOK env rest) (i : Info) (ids : List MId) (twin : Option Info)
     (hi : s = true → ∀ j ∈ i :: twin.toList ++ ids.map midInfo, 0 < j.conn.utf8ByteSize)
@@ -278,12 +278,12 @@ theorem multiF (hok : RetrieveOK env rest) (i : Info) (ids : List MId) (twin : O
     cases twin with
     | none =>
       simp only [retrieve] at hr
-      simp only [fails]
+      simp only [fails, failsN]
       exact immF hr hi0
     | some ti =>
       have hti : s = true → 0 < ti.conn.utf8ByteSize := fun hs => hi hs ti (by simp)
       simp only [retrieve] at hr
-      simp only [fails]
+      simp only [fails, failsN]
       have := loop_nodeF hok h _ (fun xi : Val × Nat => fails env rest root xi.1)
         (ids.flatMap (fun _ => xs.zipIdx)) ti root
         (fun x _ => ⟨x.1, ext aloc (.idx x.2), fun _ => rfl, rfl⟩) ti hti st st' r hout hr
@@ -293,7 +293,7 @@ theorem multiF (hok : RetrieveOK env rest) (i : Info) (ids : List MId) (twin : O
   | null | bool _ | num _ | jnum _ | str _ | opq _ _ =>
     cases twin <;>
     · simp only [retrieve] at hr
-      simp only [fails]
+      simp only [fails, failsN]
       exact immF hr hi0
 
 end multi
@@ -307,7 +307,7 @@ theorem filterF (hok : RetrieveOK env rest) (i : Info) (q : Q) (hq : ComputeQOK 
     (hi : s = true → 0 < i.conn.utf8ByteSize) (h : ChainF s env rest) : ChainF s env (.filter i q :: rest) := by
   intro prev root cur aloc st st' r hout hr
   simp only [retrieve] at hr
-  simp only [fails]
+  simp only [fails, failsN]
   by_cases hc : cur.isContainer = true
   · rw [if_pos hc] at hr
     rw [if_pos hc]
@@ -352,7 +352,7 @@ theorem afnF (hokp : RetrieveOK env param) (i : Info) (name : String)
   obtain ⟨s1, e1, hp1, hp2⟩ := hokp i root cur aloc st.sub
   have hvals := sub_out_vals st s1 _ hp2.ext
   simp only [retrieve, hp1, bind, Except.bind] at hr
-  simp only [fails]
+  simp only [fails, failsN]
   -- the parameter chain's failures are all longer than anything reported from here on
   have hrep : ∀ {e : RtErr} {F2 : List RtErr}, Best s e F2 → e.info ∈ i :: infos rest →
       Best s e (fails env param root cur ++ F2) := by
